@@ -94,6 +94,8 @@ def run(ctx):
         # four-level systems: shorter runs (the full-memory network grows with d^2)
         c4 = dict(consts, MaxN="4", KSet="{1,2,3,5,1000}", ASet="{1000,0,2,999}", OSet="{<<0,1,2,4>>, <<3,0,0,1>>}")
         cases += eng.generate(ctx, c4, "commuting four-level models")
+        c7 = dict(consts, MaxN="8", MinN="7", OSet="{<<1,-1>>}", KSet="{1,3,6,7,8,1000}")
+        cases += eng.generate(ctx, c7, "long runs, qubit")
     jobs = []
     for idx, case in enumerate(cases):
         for v in variants(case, ctx.tier, idx):
